@@ -253,7 +253,8 @@ func runC06(c *Ctx) {
 		// CreateSimpleTx reaches txToOutputs only via the channel: it must not call it
 		checkSelectionConsumed(c, tto)
 		checkSignValidate(c, tto)
-		checkInputSourceConsumes(c, "C06-R3")
+		checkRequestFieldsFromSameNamedParams(c, "C06-R2")
+	checkInputSourceConsumes(c, "C06-R3")
 		checkSignDecisionScope(c, "C06-R4")
 	}
 	checkPublish(c, func(string) string { return "C06-R5" })
